@@ -53,7 +53,7 @@ def build_operand(P, kind, shape, pre):
 
     def newid():
         slot[0] += 1
-        return P.choose(IDS)
+        return P.choose(P.h['bounds'].get('id_domain', IDS))
     coef = lambda n: coef_dom(P, n)
     if kind == 'f64':
         c = coef(pre + 'c')
@@ -188,7 +188,7 @@ def build(chk):
             raise Inconclusive('ambiguous impl for ' + callee)
     chk.bounds = {'operand kinds': KINDS, 'ops': ['add', 'sub', 'mul', 'neg', 'scalar mul'],
                   'pairs with an impl (read from MIR)': len(defined), 'pairs without impl': undefined,
-                  'terms per operand': '<= 2 non-constant terms (+ constant / linear part)', 'ids': 'every assignment of {0,1,2} to the id slots (explored paths)',
+                  'terms per operand': '<= 2 non-constant terms (+ constant / linear part)', 'ids': 'every assignment of {0,1,2} to the id slots (explored paths); {0,1} when an operand pair has more than 5 id slots',
                   'coefficients': 'symbolic reals, each 0 or with magnitude in [2^-10, 2^10] ("signed"); for operand pairs with more than 3 (quick) / 4 (thorough) '
                                   'id slots only positive coefficients in [2^-10, 2^10] ("positive": no cancellation except through sub/neg) - recorded per harness'}
     chk.assumptions += [
@@ -274,14 +274,15 @@ def build(chk):
         sas, sbs = operand_shapes(a, chk.tier), operand_shapes(b, chk.tier)
         pairs = list(itertools.product(sas, sbs))
         if chk.tier == 'quick' and len(pairs) > 2:
-            # quick: two shape pairs per operand pair, chosen by the seed; thorough: all
-            pairs = pick.sample(pairs, 2)
+            # quick: the richest shape pair plus one chosen by the seed; thorough: all
+            pairs = [pairs[-1], pick.choice(pairs[:-1])]
         for sa, sb in pairs:
             slots = count_slots(a, sa) + count_slots(b, sb)
-            if slots > 6:
+            if slots > (6 if op == 'mul' else 8):
                 continue
             mode = 'signed' if slots <= (3 if chk.tier == 'quick' else 4) else 'positive'
-            chk.harness(f'{op}:{a}{list(sa)}x{b}{list(sb)}', mk(op, a, sa, b, sb, callee), bounds={'callee': callee, 'coefficients': mode})
+            chk.harness(f'{op}:{a}{list(sa)}x{b}{list(sb)}', mk(op, a, sa, b, sb, callee),
+                        bounds={'callee': callee, 'coefficients': mode, 'id_domain': 3 if slots <= 5 else 2})
             njobs += 1
     # negation and the term iterators
     for a in KINDS:
